@@ -107,7 +107,6 @@ Definition check_case (c : case) : N :=
                end in
       (* property oracle: an inconsistent schema must be an error *)
       if (cls =? 0)%nat && existsb pin_inconsistent (params ++ returns) then 13 else
-      if (cls =? 0)%nat && existsb pin_nested_type_mismatch (params ++ returns) then 14 else
       match r, cls with
       | Ok e, 0%nat =>
           if negb (list_eqb fparam_eqb (e_inputs e) ins && list_eqb fparam_eqb (e_outputs e) outs) then 4
